@@ -405,10 +405,12 @@ def make_candidate(cr, klass, parent_hash, now_holder):
             else:
                 body.append(extra)
         if how == "reward" or body == list(b.transactions):
-            value = rng.choice([cb.outputs[0].value + 1, consensus.MAX_SASHIMI, 2 * cb.outputs[0].value])
+            value = rng.choice([cb.outputs[0].value + 1, consensus.MAX_SASHIMI, 2 * cb.outputs[0].value + 7])
             body[0] = Transaction(list(cb.inputs), [Output(value, cb.outputs[0].public_key)] + list(cb.outputs[1:]))
         blk = Block.deserialize(Block(b.header, body).serialize())
         assert blk.hash() == b.hash()
+        if blk.serialize() == b.serialize():
+            return None                       # nothing was swapped: that is the stored block itself
         return blk, b.timestamp + 200
     if klass == "merkle_wrong":
         return cr.craft(parent_hash, merkle=bytes(rng.getrandbits(8) for _ in range(32))), now
